@@ -213,7 +213,9 @@ func (h *RetryHandler) handleConnectionFailure(ctx context.Context, endpoint *do
 // removeFailedEndpoint removes the failed endpoint from the available list
 func (h *RetryHandler) removeFailedEndpoint(endpoints []*domain.Endpoint, failedEndpoint *domain.Endpoint) []*domain.Endpoint {
 	for i := 0; i < len(endpoints); i++ {
-		if endpoints[i].Name == failedEndpoint.Name {
+		// the endpoint itself, not a namesake: names are optional and need not be unique, URLs are
+		if endpoints[i] == failedEndpoint ||
+			(endpoints[i].Name == failedEndpoint.Name && endpoints[i].URLString == failedEndpoint.URLString) {
 			// Remove element at index i by copying subsequent elements
 			copy(endpoints[i:], endpoints[i+1:])
 			return endpoints[:len(endpoints)-1]
